@@ -36,6 +36,7 @@ type cycleObs struct {
 	archTree         *core.Entry // canonical digests
 	conflicts        []string
 	state            *synchronization.State // nil after a cancelled cycle
+	stillHalted      bool                   // a halted session refused a further flush
 }
 
 type oracle struct {
@@ -343,6 +344,31 @@ func (o *oracle) cycle(c *cycleObs) {
 					break
 				}
 			}
+		}
+	}
+
+	// ---- C11: a halted session changes nothing and stays halted ----
+	if strings.HasPrefix(c.status, "halt-") {
+		if p, same := rawEqual(c.preA.raw, c.postA.raw); !same {
+			o.failf("C11-halted-cycle-changed-root", "the session halted (%s) but alpha changed at %q", c.status, p)
+		}
+		if p, same := rawEqual(c.preB.raw, c.postB.raw); !same {
+			o.failf("C11-halted-cycle-changed-root", "the session halted (%s) but beta changed at %q", c.status, p)
+		}
+		if !c.stillHalted {
+			o.failf("C11-not-halted", "the session halted (%s) but served a further flush request", c.status)
+		}
+	}
+	// A root that both roots last agreed to be a directory and that is now gone
+	// or of another type on one side: that change is never propagated, the
+	// intact root stays as it is.
+	if o.synced[""] == "D" && (fpAt(c.preA.tree, "") != "D") != (fpAt(c.preB.tree, "") != "D") {
+		intact, pre, post := "alpha", c.preA.raw, c.postA.raw
+		if fpAt(c.preA.tree, "") != "D" {
+			intact, pre, post = "beta", c.preB.raw, c.postB.raw
+		}
+		if p, same := rawEqual(pre, post); !same {
+			o.failf("C11-root-change-propagated", "a synchronized root was deleted or changed type on the other side and the cycle modified %s at %q", intact, p)
 		}
 	}
 
